@@ -23,6 +23,9 @@ GAVA_MACROS = [
           "shape(precomputation[a][b]) == (m(a) + 1, m(b) + 1) and "
           "forall(i, 0, m(a) + 1, forall(j, 0, m(b) + 1, precomputation[a][b][i][j] == Mx(a, b, i, j)))"),
     Macro("S", ["r"], "PS(r, na, 0)"),
+    Macro("Mx2", ["a", "b", "i", "j"],
+          "ite(i < m(a) and j < m(b), DM2(unit_arrays[a][i], unit_arrays[b][j]), cfac * delta_empty)"),
+    Macro("scaled", [], "cfac > 0 and forall([(x, AReal), (y, AReal)], DM2(x, y) == cfac * d_mat(x, y))"),
     Macro("cand", ["r"], "PS(r, na, 0) <= C2 * delta_empty * na"),
     Macro("inbox", ["r"], "forall(a, 0, na, 0 <= Y(r)[a] and Y(r)[a] <= m(a))"),
 ]
@@ -32,13 +35,19 @@ contract(F + "AbstractDissimilarity._get_all_valid_alignments",
          returns=TupleOf(NdArray("f32", 1), NdArray("i16", 2)), static=True,
          coerce={"disorder": "Real"},
          lets={"na": "len(unit_arrays)", "C2": "na * (na - 1) // 2"},
-         ghost_funs=[GhostFun("Y", "Int -> AInt"), GhostFun("PS", "Int Int Int -> Real"), GhostFun("tri", "Int -> Int")],
+         ghost_funs=[GhostFun("Y", "Int -> AInt"), GhostFun("PS", "Int Int Int -> Real"), GhostFun("tri", "Int -> Int"),
+                     # C09-I2: a second instance with every dissimilarity value and delta_empty multiplied by cfac
+                     GhostFun("DM2", "AReal AReal -> Real"), GhostFun("PS2", "Int Int Int -> Real"), GhostFun("cfac", "-> Real")],
          macros=GAVA_MACROS,
          axioms=["forall(r, PS(r, 0, 0) == 0)",
                  "forall([r, a, b], implies(0 <= b and b < a and a < na,"
                  "   PS(r, a, b + 1) == PS(r, a, b) + Mx(a, b, Y(r)[a], Y(r)[b])), pat=[PS(r, a, b + 1)])",
                  "forall([r, a], implies(0 <= a and a < na, PS(r, a + 1, 0) == PS(r, a, a)), pat=[PS(r, a + 1, 0)])",
-                 "tri(0) == 0", "forall(a, implies(a >= 0, tri(a + 1) == tri(a) + a), pat=[tri(a + 1)])"],
+                 "tri(0) == 0", "forall(a, implies(a >= 0, tri(a + 1) == tri(a) + a), pat=[tri(a + 1)])",
+                 "forall(r, PS2(r, 0, 0) == 0)",
+                 "forall([r, a, b], implies(0 <= b and b < a and a < na,"
+                 "   PS2(r, a, b + 1) == PS2(r, a, b) + Mx2(a, b, Y(r)[a], Y(r)[b])), pat=[PS2(r, a, b + 1)])",
+                 "forall([r, a], implies(0 <= a and a < na, PS2(r, a + 1, 0) == PS2(r, a, a)), pat=[PS2(r, a + 1, 0)])"],
          ghost_vars={"rk": ("AInt", None), "pos": ("AInt", None), "SZ": ("AInt", None)},
          lemmas=[
              Lemma("tri_closed", "2 * tri(a) == a * (a - 1)", binders=[("a", "Int")], hyps=["0 <= a"],
@@ -50,6 +59,14 @@ contract(F + "AbstractDissimilarity._get_all_valid_alignments",
                    method=("induction", "b", "0")),
              Lemma("PS_null", "PS(r, a, 0) == tri(a) * delta_empty", binders=[("r", "Int"), ("a", "Int")],
                    hyps=["0 <= a", "a <= na", "forall(c, 0, na, Y(r)[c] == m(c))"], method=("induction", "a", "0")),
+             # C09-I2: scaling every pair dissimilarity and delta_empty by c > 0 scales every pair sum by c and keeps the candidate set
+             Lemma("ps_scale_row", "PS2(r, a, b) - PS2(r, a, 0) == cfac * (PS(r, a, b) - PS(r, a, 0))",
+                   binders=[("r", "Int"), ("a", "Int"), ("b", "Int")], hyps=["scaled()", "0 <= a", "a < na", "0 <= b", "b <= a"],
+                   method=("induction", "b", "0")),
+             Lemma("ps_scale", "PS2(r, a, 0) == cfac * PS(r, a, 0)", binders=[("r", "Int"), ("a", "Int")],
+                   hyps=["scaled()", "0 <= a", "a <= na"], method=("induction", "a", "0")),
+             Lemma("cut_scale", "(PS2(r, na, 0) <= C2 * (cfac * delta_empty) * na) == (PS(r, na, 0) <= C2 * delta_empty * na)",
+                   binders=[("r", "Int")], hyps=["scaled()"], hints=["PS2(r, na, 0) == cfac * PS(r, na, 0)"]),
          ],
          requires=["na >= 2", "delta_empty >= 0",
                    "forall(a, 0, na, shape(unit_arrays[a])[1] == 4 and m(a) + 1 <= 32767)"],
@@ -128,17 +145,48 @@ contract(F + "AbstractDissimilarity._compute_alignment_disorders",
          params={"alignment_array": NdArray("f32", 3), "d_mat": DMAT, "delta_empty": RealT()},
          returns=NdArray("f32", 1), static=True,
          lets={"NA": "shape(alignment_array)[0]", "na": "shape(alignment_array)[1]", "C2": "na * (na - 1) // 2"},
-         ghost_funs=[GhostFun("PSA", "Int Int Int -> Real"), GhostFun("tri", "Int -> Int")],
+         ghost_funs=[GhostFun("PSA", "Int Int Int -> Real"), GhostFun("tri", "Int -> Int"),
+                     # C09: a second instance with every dissimilarity value and delta_empty multiplied by cfac (I2) ...
+                     GhostFun("DM2", "AReal AReal -> Real"), GhostFun("PSA2", "Int Int Int -> Real"), GhostFun("cfac", "-> Real"),
+                     # ... and a third one on an alignment array whose annotator slots are permuted by sig (I4)
+                     GhostFun("AAp", "-> A3Real"), GhostFun("sig", "-> AInt"), GhostFun("PSAp", "Int Int Int -> Real")],
          macros=[Macro("empty", ["u", "i"], "alignment_array[u][i][3] == -1"),
                  Macro("PD", ["u", "i", "j"], "ite(empty(u, i) or empty(u, j), delta_empty, "
-                                              "d_mat(alignment_array[u][i], alignment_array[u][j]))")],
+                                              "d_mat(alignment_array[u][i], alignment_array[u][j]))"),
+                 Macro("PD2", ["u", "i", "j"], "ite(empty(u, i) or empty(u, j), cfac * delta_empty, "
+                                               "DM2(alignment_array[u][i], alignment_array[u][j]))"),
+                 Macro("PDp", ["u", "i", "j"], "ite(AAp[u][i][3] == -1 or AAp[u][j][3] == -1, delta_empty, d_mat(AAp[u][i], AAp[u][j]))"),
+                 Macro("scaled", [], "cfac > 0 and forall([(x, AReal), (y, AReal)], DM2(x, y) == cfac * d_mat(x, y))"),
+                 Macro("permuted", ["u", "n"], "forall(i, 0, n, 0 <= sig[i] and sig[i] < n and AAp[u][sig[i]] == raw(alignment_array[u][i])) and "
+                                               "forall(i, 0, n, forall(j, i + 1, n, sig[i] != sig[j])) and "
+                                               "forall([(x, AReal), (y, AReal)], d_mat(x, y) == d_mat(y, x))")],
          axioms=["forall(u, PSA(u, 0, 0) == 0)",
                  "forall([u, i, j], implies(0 <= j and j < i and i < na, PSA(u, i, j + 1) == PSA(u, i, j) + PD(u, i, j)),"
                  " pat=[PSA(u, i, j + 1)])",
                  "forall([u, i], implies(0 <= i and i < na, PSA(u, i + 1, 0) == PSA(u, i, i)), pat=[PSA(u, i + 1, 0)])",
-                 "tri(0) == 0", "forall(a, implies(a >= 0, tri(a + 1) == tri(a) + a), pat=[tri(a + 1)])"],
+                 "tri(0) == 0", "forall(a, implies(a >= 0, tri(a + 1) == tri(a) + a), pat=[tri(a + 1)])",
+                 "forall(u, PSA2(u, 0, 0) == 0)",
+                 "forall([u, i, j], implies(0 <= j and j < i and i < na, PSA2(u, i, j + 1) == PSA2(u, i, j) + PD2(u, i, j)),"
+                 " pat=[PSA2(u, i, j + 1)])",
+                 "forall([u, i], implies(0 <= i and i < na, PSA2(u, i + 1, 0) == PSA2(u, i, i)), pat=[PSA2(u, i + 1, 0)])",
+                 "forall(u, PSAp(u, 0, 0) == 0)",
+                 "forall([u, i, j], implies(0 <= j and j < i and i < na, PSAp(u, i, j + 1) == PSAp(u, i, j) + PDp(u, i, j)),"
+                 " pat=[PSAp(u, i, j + 1)])",
+                 "forall([u, i], implies(0 <= i and i < na, PSAp(u, i + 1, 0) == PSAp(u, i, i)), pat=[PSAp(u, i + 1, 0)])"],
          lemmas=[Lemma("tri_closed", "2 * tri(a) == a * (a - 1)", binders=[("a", "Int")], hyps=["0 <= a"],
                        method=("induction", "a", "0")),
+                 # C09-I2: multiplying every pair dissimilarity and delta_empty by c multiplies every unitary disorder by c
+                 Lemma("psa_scale_row", "PSA2(u, i, j) - PSA2(u, i, 0) == cfac * (PSA(u, i, j) - PSA(u, i, 0))",
+                       binders=[("u", "Int"), ("i", "Int"), ("j", "Int")], hyps=["scaled()", "0 <= i", "i < na", "0 <= j", "j <= i"],
+                       method=("induction", "j", "0")),
+                 Lemma("psa_scale", "PSA2(u, i, 0) == cfac * PSA(u, i, 0)", binders=[("u", "Int"), ("i", "Int")],
+                       hyps=["scaled()", "0 <= i", "i <= na"], method=("induction", "i", "0")),
+                 # C09-I4: with a symmetric dissimilarity the unitary disorder does not depend on the annotators' slots (n = 2, 3)
+                 Lemma("ud_perm_2", "PSAp(u, 2, 0) == PSA(u, 2, 0)", binders=[("u", "Int")], hyps=["na == 2", "permuted(u, 2)"],
+                       hints=["PSA(u, 2, 0) == PD(u, 1, 0)", "PSAp(u, 2, 0) == PDp(u, 1, 0)"]),
+                 Lemma("ud_perm_3", "PSAp(u, 3, 0) == PSA(u, 3, 0)", binders=[("u", "Int")], hyps=["na == 3", "permuted(u, 3)"],
+                       hints=["PSA(u, 2, 0) == PD(u, 1, 0)", "PSA(u, 3, 0) == PD(u, 1, 0) + PD(u, 2, 0) + PD(u, 2, 1)",
+                              "PSAp(u, 2, 0) == PDp(u, 1, 0)", "PSAp(u, 3, 0) == PDp(u, 1, 0) + PDp(u, 2, 0) + PDp(u, 2, 1)"]),
                  Lemma("c2n_exact", "2 * C2 == na * (na - 1) and C2 >= 1", hints=["2 * tri(na) == na * (na - 1)", "tri(na) == C2",
                                                                                  "tri(na) == tri(na - 1) + (na - 1)",
                                                                                  "2 * tri(na - 1) == (na - 1) * (na - 2)"])],
@@ -207,6 +255,9 @@ contract(F + "AbsoluteCategoricalDissimilarity.compile_d_mat.<locals>.d_mat",
          params={"unit1": RowT(), "unit2": RowT()}, closure={"delta_empty": RealT()}, returns=RealT(),
          requires=ROW_REQ,
          ensures=[cl("result == (0 if unit1[3] == unit2[3] else 1) * delta_empty", "C04 C09", name="formula")],
+         ghost_funs=[GhostFun("ren", "Real -> Real")],
+         lemmas=[Lemma("abs_cat_renaming", "(0 if ren(c1) == ren(c2) else 1) == (0 if c1 == c2 else 1)",
+                       binders=[("c1", "Real"), ("c2", "Real")], hyps=["implies(ren(c1) == ren(c2), c1 == c2)"])],
          serves={"C04", "C09"})
 
 contract(F + "AbsoluteCategoricalDissimilarity.d",
